@@ -37,7 +37,15 @@ func checkC13(c *Ctx, r *Report) {
 	defer checkEngineMapsCloned(c, r, "C13.c")
 	defer checkContainerFields(c, r, "C13.c")
 	defer checkProcessWideState(c, r, "C13.c")
+	defer checkMemoKeys(c, r, "C13.c")
 	w := c.W
+	// the spec is a function of sources and configuration minus the routing engine: the engine is
+	// consulted by the routes generator only (what the analysis, the reduction and the spec emitters
+	// compute cannot vary with it)
+	defer func() {
+		ruleWhoReads(c, r, "C13.e", w.lookupType("definitions", "RoutesConfig"), "Engine", []string{"generator/routes", "cmd"}, 3,
+			"the routing engine selects router templates; a reader elsewhere makes the spec (or the symbol graph) depend on the engine")
+	}()
 	r.NotDecided = append(r.NotDecided,
 		"nondeterminism inside go/packages, kin-openapi, libopenapi, raymond",
 		"totality of sort comparators on inputs with equal keys (after the repairs the inputs of every sort are themselves deterministic, so ties no longer vary between runs)",
@@ -291,8 +299,17 @@ func checkC13(c *Ctx, r *Report) {
 	checkNoGoroutines(c, r, "C13.e")
 
 	// ---- C13.f the artifacts do not depend on what an earlier run left at the output path
-	for _, fnk := range []string{"generator/routes.GenerateRoutes", "generator/swagen.GenerateAndOutputSpec"} {
-		fi := need(c, r, "C13.f", fnk)
+	checkArtifactWrites(c, r, "C13.f", "generator/routes.GenerateRoutes", "generator/swagen.GenerateAndOutputSpec")
+
+	// ---- C13.a (cont.) every in-place sort is a reviewed one
+	ruleSortInventory(c, r, "C13.a")
+}
+
+// checkArtifactWrites: the artifact replaces whatever was at the output path (truncating write),
+// is written on every successful run, and what is already there is never looked at.
+func checkArtifactWrites(c *Ctx, r *Report, clause string, fnks ...string) {
+	for _, fnk := range fnks {
+		fi := need(c, r, clause, fnk)
 		if fi == nil {
 			continue
 		}
@@ -308,7 +325,7 @@ func checkC13(c *Ctx, r *Report) {
 		if len(fws) == 0 {
 			viol = "no file write found in " + fnk
 		}
-		r.add("C13.f", "fieldflow", fnk+":truncating-write", "the artifact replaces whatever was at the output path", []string{fnk}, sites, viol)
+		r.add(clause, "fieldflow", fnk+":truncating-write", "the artifact replaces whatever was at the output path", []string{fnk}, sites, viol)
 		// ... on every successful run (no "already up to date" shortcut), and what is at the
 		// output path is never read: otherwise the bytes that end up there depend on what was there
 		{
@@ -342,12 +359,9 @@ func checkC13(c *Ctx, r *Report) {
 			if len(s2) == 0 {
 				s2 = []string{c.W.pos(fi.Decl.Pos())}
 			}
-			r.add("C13.f", "mustcall", fnk+":written-on-every-success", "every successful run writes the artifact, without first looking at what is at the output path", []string{fnk}, s2, v2)
+			r.add(clause, "mustcall", fnk+":written-on-every-success", "every successful run writes the artifact, without first looking at what is at the output path", []string{fnk}, s2, v2)
 		}
 	}
-
-	// ---- C13.a (cont.) every in-place sort is a reviewed one
-	ruleSortInventory(c, r, "C13.a")
 }
 
 func sameAlloc(a, b ssa.Value) bool {
